@@ -210,6 +210,32 @@ fn c16_accessors_n2() {
     c16_name_configs::<2>(0, 9);
 }
 
+// Three groups sharing one name (the third participating) and the other duplicate shapes of N=3.
+fn c16_body_codes<const N: usize>(codes: &[usize]) {
+    let mut k = 0;
+    while k < codes.len() {
+        let mut sels = [0u8; N];
+        let mut c = codes[k];
+        let mut i = 0;
+        while i < N {
+            sels[i] = (c % 3) as u8;
+            c /= 3;
+            i += 1;
+        }
+        c16_body::<N>(sels, true);
+        k += 1;
+    }
+    kani::cover!(true, "end of harness reached");
+}
+
+// @verif props=C16 tier=quick timeout=1800 bound="3 groups with name assignments (a,a,a), (b,b,b), (a,-,a), (a,b,a): duplicates incl. three holders of one name; captures symbolic"
+// @verif funcs="Match::group,Match::groups,Match::named_group,Match::named_groups,NamedGroups::next"
+#[kani::proof]
+#[kani::unwind(12)]
+fn c16_accessors_n3_dups() {
+    c16_body_codes::<3>(&[13, 26, 10, 16]);
+}
+
 // @verif props=C16 tier=thorough timeout=2400 bound="3 groups, name assignments 0..9 of 27; captures symbolic"
 // @verif funcs="Match::group,Match::groups,Groups::next,Groups::size_hint,Match::named_group,Match::named_groups,NamedGroups::next"
 #[kani::proof]
@@ -387,7 +413,7 @@ fn c17_body<const L: usize>() {
             start_pred: StartPredicate::Arbitrary,
             loops: 0,
             groups: 2,
-            group_names: Vec::new().into_boxed_slice(),
+            group_names: Box::new([]),
             flags: Flags::default(),
         },
     };
@@ -556,22 +582,21 @@ mod eng {
         Hay { n, buf, off, len: at }
     }
 
-    static mut ORACLE_END: [Option<usize>; BYTES + 1] = [None; BYTES + 1];
+    use crate::verif_oracle as vo;
 
     pub fn stub_try_at_pos<'a: 'a, Input: InputIndexer, Dir: Direction>(
         _this: &mut MatchAttempter<'a, Input>,
         inp: Input,
-        _ip: IP,
+        ip: IP,
         pos: Input::Position,
         _dir: Dir,
     ) -> Option<Input::Position> {
-        let off = inp.pos_to_offset(pos);
-        unsafe {
-            match ORACLE_END[off] {
-                None => None,
-                Some(e) => inp.try_move_right(inp.left_end(), e),
+        if ip != 0 {
+            unsafe {
+                vo::VERIF_ORACLE_CALLS_OK = false;
             }
         }
+        vo::lookup(&inp, pos)
     }
 
     fn is_boundary(hy: &Hay, o: usize) -> bool {
@@ -587,23 +612,27 @@ mod eng {
     }
 
     fn any_oracle(hy: &Hay) {
-        let mut o = 0;
-        while o <= BYTES {
-            let v: Option<usize> = if o <= hy.len && is_boundary(hy, o) {
-                if kani::any() {
-                    let e: usize = kani::any();
-                    kani::assume(e >= o && e <= hy.len && is_boundary(hy, e));
-                    Some(e)
+        // entries start as poison; only boundary offsets get a real (arbitrary) answer
+        let mut i = 0;
+        while i <= NMAX {
+            if i <= hy.n {
+                let v: Option<usize> = if kani::any() {
+                    let j: usize = kani::any();
+                    kani::assume(j >= i && j <= hy.n);
+                    Some(hy.off[j])
                 } else {
                     None
+                };
+                unsafe {
+                    vo::VERIF_ORACLE_END[hy.off[i]] = v;
                 }
-            } else {
-                Some(BYTES + 7) // poison: never queried by correct code
-            };
-            unsafe {
-                ORACLE_END[o] = v;
             }
-            o += 1;
+            i += 1;
+        }
+        unsafe {
+            vo::VERIF_ORACLE_HAYLEN = hy.len;
+            vo::VERIF_ORACLE_CALLS_OK = true;
+            vo::VERIF_ORACLE_ACTIVE = true;
         }
     }
 
@@ -612,7 +641,7 @@ mod eng {
         let mut res = None;
         while i <= NMAX {
             if res.is_none() && i <= hy.n && hy.off[i] >= cursor {
-                if let Some(e) = unsafe { ORACLE_END[hy.off[i]] } {
+                if let Some(e) = unsafe { vo::VERIF_ORACLE_END[hy.off[i]] } {
                     res = Some((hy.off[i], e));
                 }
             }
@@ -641,7 +670,7 @@ mod eng {
                 start_pred: StartPredicate::Arbitrary,
                 loops: 0,
                 groups: 0,
-                group_names: Vec::new().into_boxed_slice(),
+                group_names: Box::new([]),
                 flags: Flags::default(),
             },
         }
@@ -740,7 +769,7 @@ mod eng {
                     assert!(a <= b && is_boundary(&hy, a) && is_boundary(&hy, b));
                     at = a;
                     if is_match {
-                        assert!(unsafe { ORACLE_END[a] } == Some(b), "a reported match is a match of the engine");
+                        assert!(unsafe { vo::VERIF_ORACLE_END[a] } == Some(b), "a reported match is a match of the engine");
                     } else {
                         assert!(a < b);
                     }
